@@ -7,6 +7,7 @@ from fractions import Fraction
 
 import z3
 
+FIRST_BUDGET_MS = 6000
 CVC5 = '/usr/bin/cvc5'
 Z3CLI = '/usr/bin/z3'
 
@@ -19,7 +20,8 @@ def check_sat(assertions, timeout_ms=20000, want_model=True, fallbacks=True, tac
     """Returns (status, model_or_None, seconds, backend); status in {'unsat','sat','unknown'}."""
     t0 = time.time()
     s = z3.Solver() if tactic is None else z3.Tactic(tactic).solver()
-    s.set('timeout', timeout_ms)
+    first_budget = timeout_ms if not fallbacks else min(timeout_ms, FIRST_BUDGET_MS)
+    s.set('timeout', first_budget)
     for a in assertions:
         s.add(a)
     r = s.check()
@@ -30,7 +32,7 @@ def check_sat(assertions, timeout_ms=20000, want_model=True, fallbacks=True, tac
         return 'sat', (s.model() if want_model else None), dt, 'z3api'
     if not fallbacks:
         return 'unknown', None, dt, 'z3api'
-    # fall back on the SMT-LIB dump
+    # portfolio: the SMT-LIB dump goes to cvc5 and the z3 4.8 CLI; then z3 again with the full budget
     smt = s.to_smt2()
     for backend, cmd in (('cvc5', [CVC5, '--lang=smt2', f'--tlimit={timeout_ms}'] +
                           (['--strings-exp'] if _has_strings(smt) else [])),
@@ -41,6 +43,13 @@ def check_sat(assertions, timeout_ms=20000, want_model=True, fallbacks=True, tac
         if res in ('unsat', 'sat'):
             # a CLI "sat" has no model object here; report it as sat without a model
             return res, None, time.time() - t0, backend
+    if first_budget < timeout_ms:
+        s.set('timeout', timeout_ms)
+        r = s.check()
+        if r == z3.unsat:
+            return 'unsat', None, time.time() - t0, 'z3api'
+        if r == z3.sat:
+            return 'sat', (s.model() if want_model else None), time.time() - t0, 'z3api'
     return 'unknown', None, time.time() - t0, 'all'
 
 
